@@ -286,7 +286,24 @@ async fn build_engine(sc: &Value, dir: &str) -> Result<Engine, String> {
     if sqlite {
         b = b.add_plugin(&acts_store_sqlite::SqliteStore);
     }
-    Ok(b.build().await.map_err(|e| e.to_string())?.start())
+    let engine = b.build().await.map_err(|e| e.to_string())?.start();
+    // packages registered by the application (Extender::register_package): {"name", "run_as": "msg" | "irq"}
+    for p in sc.get("packages").and_then(|x| x.as_array()).cloned().unwrap_or_default() {
+        let name: &'static str = Box::leak(s(&p, "name", "app.x").to_string().into_boxed_str());
+        let meta = acts::ActPackageMeta {
+            name,
+            desc: "",
+            icon: "",
+            doc: "",
+            version: "0.1.0",
+            schema: json!({"type": ["object", "null", "string", "number", "array", "boolean"]}),
+            run_as: if s(&p, "run_as", "msg") == "irq" { acts::ActRunAs::Irq } else { acts::ActRunAs::Msg },
+            resources: vec![],
+            catalog: acts::ActPackageCatalog::App,
+        };
+        engine.extender().register_package(&meta).map_err(|e| e.to_string())?;
+    }
+    Ok(engine)
 }
 
 fn build_query(a: &Value) -> acts::query::Query {
